@@ -7,6 +7,8 @@
      typed_int  vm/thread.go opXInt   (left.IsSmallInt() ? AsSmallInt : AsReference() asserted to BigInt)
      typed_float vm/thread.go opXFloat (left.AsFloat(), after fixes/C08-typed-float-opcodes.patch)
      by_name    vm/int.go, vm/float.go natives: "op" and the overloads "op@1", "op@2"
+     x_ints     value.XInts -> SmallInt.XInt / BigInt.XInt: the Int-only helpers behind the
+                statically bound overload Int#op@1 (and the Go backend's typed Int code)
    Integer arithmetic is the C06 model; IEEE arithmetic on Float bit patterns and the
    Int->Float conversion are external (Section variables): path equality does not depend on them. *)
 From Elk Require Export Base.GoSem Model.C06_Int.
@@ -35,6 +37,36 @@ Definition is_float (v : value) : bool := match v with VFloat _ => true | _ => f
 Definition has_float_opcode (o : op) : bool :=
   match o with OArith _ | OCmp _ => true | _ => false end.
 Definition is_arith (o : op) : bool := match o with OArith _ | OPow => true | _ => false end.
+
+(* ---- exact comparison of an integer with a binary64 bit pattern: value/exact_compare.go
+   CompareInt64WithFloat64 / CompareBigIntWithFloat64 (both exact, no rounding of the integer).
+   -1 | 0 | 1, and 2 = unordered (NaN) ---- *)
+Definition f_sign (bits : Z) : Z := bits / 2 ^ 63.
+Definition f_exp (bits : Z) : Z := (bits / 2 ^ 52) mod 2 ^ 11.
+Definition f_man (bits : Z) : Z := bits mod 2 ^ 52.
+Definition ifcmp3 (z bits : Z) : Z :=
+  let e := f_exp bits in
+  let m := f_man bits in
+  let neg := negb (f_sign bits =? 0) in
+  if e =? 2047 then (if m =? 0 then (if neg then 1 else -1) else 2)
+  else
+    let mant := (if e =? 0 then m else 2 ^ 52 + m) * (if neg then -1 else 1) in
+    let k := (if e =? 0 then 1 else e) - 1075 in
+    if k >=? 0 then big_cmp z (mant * 2 ^ k) else big_cmp (z * 2 ^ (- k)) mant.
+(* Int <op> Float from the three-way result c = compare(int, float) *)
+Definition cmp_of3 (o : cmpop) (c : Z) : bool :=
+  match o with
+  | CGt => c =? 1 | CGe => (c =? 1) || (c =? 0)
+  | CLt => c =? -1 | CLe => (c =? -1) || (c =? 0)
+  | CEq => c =? 0
+  end.
+(* Float <op> Int: the same call with the operands swapped, so the sense is mirrored *)
+Definition cmp_of3_rev (o : cmpop) (c : Z) : bool :=
+  match o with
+  | CGt => c =? -1 | CGe => (c =? -1) || (c =? 0)
+  | CLt => c =? 1 | CLe => (c =? 1) || (c =? 0)
+  | CEq => c =? 0
+  end.
 
 Section Paths.
   (* Go float64 + - * /, math.Mod, math.Pow on bit patterns; comparisons; Float(int) *)
@@ -72,7 +104,8 @@ Section Paths.
     | VFloat g =>
         match o with
         | OCmp CEq => Ok (VBool false)                 (* Int == Float is strict: false *)
-        | OArith _ | OPow | OCmp _ => float_float o (i2f (den x)) g
+        | OCmp c => Ok (VBool (cmp_of3 c (ifcmp3 (den x) g)))   (* exact, no conversion *)
+        | OArith _ | OPow => float_float o (i2f (den x)) g
         | _ => Err E_TYPE                              (* BitshiftOperandError / CoerceError *)
         end
     | _ => Err E_TYPE
@@ -84,8 +117,12 @@ Section Paths.
     | _ =>
       match r with
       | VFloat g => float_float o f g
-      | VSmall z => match o with OCmp CEq => Ok (VBool false) | _ => float_float o f (i2f z) end
-      | VBig z => match o with OCmp CEq => Ok (VBool false) | _ => float_float o f (i2f z) end
+      | VSmall z | VBig z =>
+          match o with
+          | OCmp CEq => Ok (VBool false)
+          | OCmp c => Ok (VBool (cmp_of3_rev c (ifcmp3 z f)))    (* exact, no conversion *)
+          | _ => float_float o f (i2f z)
+          end
       | _ => match o with OCmp CEq => Ok (VBool false) | _ => Err E_TYPE end
       end
     end.
@@ -127,15 +164,48 @@ Section Paths.
          | _ => typed_float o l r
          end.
 
+  (* ---- the Int-only helpers. SmallInt.XInt(other) and BigInt.XInt(other) (value/small_int.go,
+     value/big_int.go: AddInt SubtractInt MultiplyInt DivideInt ModuloInt ExponentiateInt
+     GreaterThanInt GreaterThanEqualInt LessThanInt LessThanEqualInt EqualInt LeftBitshiftInt
+     RightBitshiftInt BitwiseAndInt BitwiseOrInt BitwiseXorInt BitwiseAndNotInt) are separate Go
+     functions from the XVal family: `if other.IsSmallInt() { return i.XSmallInt(other.AsSmallInt()) }
+     return i.XBigInt(( *BigInt)(other.Pointer()))` - no look at the flag beyond that, the pointer
+     cast is unchecked. The leaves XSmallInt / XBigInt are the ones XVal reaches (C06 model). ---- *)
+  Definition is_small (v : value) : bool := match v with VSmall _ => true | _ => false end.
+  Definition x_int (o : op) (self : ival) (other : value) : outcome value :=
+    if is_small other then int_int o self (Small (as_small_int other))
+    else match other with
+         | VBig b => int_int o self (Big b)
+         | _ => Panic P_NIL          (* pointer of a non-BigInt read as a BigInt *)
+         end.
+  Definition small_x_int (o : op) (i : Z) (other : value) : outcome value := x_int o (Small i) other.
+  Definition big_x_int (o : op) (a : Z) (other : value) : outcome value := x_int o (Big a) other.
+  (* value.XInts(left, right): `if left.IsReference() { (( *BigInt)(left.Pointer())).XInt(right) }
+     else left.AsSmallInt().XInt(right)` *)
+  Definition x_ints (o : op) (l r : value) : outcome value :=
+    match l with
+    | VBig a => big_x_int o a r
+    | VOther => Panic P_NIL
+    | _ => small_x_int o (as_small_int l) r
+    end.
+  (* the six the bytecode VM reaches, through the natives "+@1" "-@1" "*@1" "/@1" "%@1" "**@1" *)
+  Definition add_ints := x_ints (OArith OpAdd).
+  Definition subtract_ints := x_ints (OArith OpSub).
+  Definition multiply_ints := x_ints (OArith OpMul).
+  Definition divide_ints := x_ints (OArith OpDiv).
+  Definition modulo_ints := x_ints (OArith OpMod).
+  Definition exponentiate_ints := x_ints OPow.
+
   (* natives called by name. Int: "op" -> value.XInt(self, other) = XVal on self's
-     representation; arithmetic "op@1" (other : Int) -> value.XInts. Float: "op" ->
+     representation; arithmetic "op@1" (other : Int) -> value.XInts (x_ints above), which the
+     checker binds statically when both operands are typed Int. Float: "op" ->
      self.XVal(other); arithmetic "op@1" (other : Float), "op@2" (other : Int). *)
   Definition by_name (o : op) (l r : value) : outcome value :=
     match l with
     | VSmall _ | VBig _ =>
         let x := match l with VBig z => Big z | _ => Small (as_small_int l) end in
         if is_arith o && is_int r
-        then match r with VSmall z => int_int o x (Small z) | VBig z => int_int o x (Big z) | _ => Panic P_NIL end
+        then x_ints o l r
         else int_val o x r
     | VFloat _ =>
         let f := as_float l in
